@@ -14,8 +14,79 @@
 #include <utility>
 #include <vector>
 
+#ifdef SIM_TSAN
+#include <linux/futex.h>
+#include <sys/syscall.h>
+#include <thread>
+#endif
+
 namespace sim
 {
+#ifdef SIM_TSAN
+// Scheduler hand-off that ThreadSanitizer cannot see: plain loads/stores in inline asm and raw futex system calls
+// (no libc wrapper, no atomics), so no happens-before edge is recorded between the tasks and TSan reports every
+// conflicting pair of accesses of the (instrumented) library code, while execution is the seeded serial order.
+struct Handoff
+{
+    alignas(64) volatile int turn = -1;   // task that may run one step, -1: scheduler
+    alignas(64) volatile int quit_flag = 0;
+
+    __attribute__((no_sanitize("thread"), noinline)) static int load(const volatile int* p)
+    {
+        int v;
+        __asm__ __volatile__("movl %1, %0" : "=r"(v) : "m"(*p) : "memory");
+        return v;
+    }
+    __attribute__((no_sanitize("thread"), noinline)) static void store(volatile int* p, int v)
+    {
+        __asm__ __volatile__("movl %1, %0\n\tmfence" : "=m"(*p) : "r"(v) : "memory");
+    }
+    __attribute__((no_sanitize("thread"), noinline)) static long futex(volatile int* addr, int op, int val)
+    {
+        long ret;
+        register long r10 __asm__("r10") = 0;
+        __asm__ __volatile__("syscall"
+                             : "=a"(ret)
+                             : "0"(static_cast<long>(SYS_futex)), "D"(addr), "S"(static_cast<long>(op)),
+                               "d"(static_cast<long>(val)), "r"(r10)
+                             : "rcx", "r11", "memory");
+        return ret;
+    }
+    __attribute__((no_sanitize("thread"))) void wait_turn(int t)
+    {
+        for (;;)
+        {
+            const int cur = load(&turn);
+            if (cur == t || load(&quit_flag)) return;
+            futex(&turn, FUTEX_WAIT, cur);
+        }
+    }
+    __attribute__((no_sanitize("thread"))) bool quit() { return load(&quit_flag) != 0; }
+    __attribute__((no_sanitize("thread"))) void step_done()
+    {
+        store(&turn, -1);
+        futex(&turn, FUTEX_WAKE, 64);
+    }
+    __attribute__((no_sanitize("thread"))) void release(int t)
+    {
+        store(&turn, t);
+        futex(&turn, FUTEX_WAKE, 64);
+        for (;;)
+        {
+            const int cur = load(&turn);
+            if (cur == -1) return;
+            futex(&turn, FUTEX_WAIT, cur);
+        }
+    }
+    __attribute__((no_sanitize("thread"))) void shutdown(int)
+    {
+        store(&quit_flag, 1);
+        store(&turn, -2);
+        futex(&turn, FUTEX_WAKE, 64);
+    }
+};
+#endif
+
 // ---------------------------------------------------------------------------------------------
 // properties
 // ---------------------------------------------------------------------------------------------
